@@ -28,7 +28,7 @@ pub fn gen_case(t: &mut Tape, tier: Tier) -> Option<c09::Case> {
     let free: Vec<Vec<f64>> = free.iter().map(|p| p.iter().map(|&v| gen::grid16(v)).collect()).collect();
     let kin = gen::gen_routing_exact(t, &g, &free, &masses, 3);
     let kin2 = gen::gen_routing_exact(t, &g, &free, &masses, 3);
-    let prof = gen::PointProfile { u_w: [0.5, 0.5, 0.0, 0.0], xi_w: [0.0, 0.1, 0.7, 0.2], lambda_tail: 0.0, bm_extreme: 0.0 };
+    let prof = gen::PointProfile { u_w: [0.5, 0.5, 0.0, 0.0], xi_w: [0.0, 0.1, 0.7, 0.2], lambda_tail: 0.0, bm_extreme: 0.15 };
     let (x, classes) = gen::gen_point(t, &g, &prof);
     Some(c09::Case { a: Phys { g, kin, x, classes: classes.into_iter().map(String::from).collect() }, kin2 })
 }
